@@ -1,6 +1,9 @@
 """C08 — partial formulas equal their definitions; the two identities hold for all parameters."""
 from ..runner import Stream
-from .. import gen
+from .. import gen, p2loop
+
+# WP p2b: loop structure of P2/B inside the model (PcProps/C08P2.lean; streams in pcv/p2loop.py)
+EXTRA_MODULES = ["C08P2"]
 
 RULE = ("each term (P2,P3,S1,S2_trivial,S2_easy,S2_hard,Sigma,B,Phi0,AC,D) through the internal entry point with EXPLICIT "
         "(y,z,k|c) — exhaustive small x × every admissible parameter choice, boundary-heavy sample beyond — against the naive "
@@ -93,7 +96,7 @@ def streams(ctx):
     st2 = Stream("identities_large_x", ops2, oracle=True, judge=judge,
                  model_ops=lambda ops, impl: ["# " + o for o in ops], timeout=1500,
                  classify=lambda op, r: op.split()[0])
-    return [st1, st2, cli_stream(ctx)]
+    return [st1, st2, cli_stream(ctx)] + p2loop.c08_streams(ctx)
 
 
 def cli_stream(ctx):
